@@ -5,7 +5,7 @@ from ..catalogue import catalogue, is_effect
 from ..lifecycle import lifecycle, drains, loops_over
 from ..handles import handles
 from .common import where, cls_short, contexts, capabilities, types, short
-from .flows import DEFERRED_REGS, rule_fire_once, rule_drop, mark_qos0_exception
+from .flows import DEFERRED_REGS, rule_fire_once, rule_drop, mark_qos0_exception, prefired_fires
 
 EXPLANATION = (
     "Exhaustiveness and identity rules on the loss closure of every profile class: under the clean-session test EVERY "
@@ -13,7 +13,8 @@ EXPLANATION = (
     "subscribe and unsubscribe windows) is drained by a loop over the whole registry that removes each entry and fires "
     "errback with the `reason` parameter itself (def-use identity), entries already fired being skipped only under a "
     "`.called` test; fired entries leave their registry and removed entries are fired (pairing rules); the clean-up is "
-    "reached on every path (no exception, no fired or None handle), so after a clean loss each of those registries is "
+    "reached on every path (no exception, no fired or None handle, no errback() without a .called test on an entry of a "
+    "registry that API paths fill with already fired Deferreds), so after a clean loss each of those registries is "
     "empty when the protocol returns to IDLE. Which kind of loss occurred and the behaviour of the next connection are "
     "not explored.")
 ASSUMPTIONS = []
@@ -76,5 +77,11 @@ def check(ctx):
             if tr.kind == "LOSS":
                 ctx.ob("X-REACH", "%s no None handle used on the loss path" % cq, False, where=where(e), function=e.func,
                        construct="%s/none-handle/%s" % (e.func, ".".join(loc)), msg=why)
+        for tr, f, rg, (tr0, st0, rg0) in prefired_fires(cat):
+            if tr.kind == "LOSS":
+                ctx.ob("X-REACH", "%s clean-up is not cut short by an already fired Deferred" % cq, False, where=where(f), function=f.func,
+                       construct="%s/loss/prefired/%s" % (cls.qual, rg),
+                       msg="errback() of a request taken from %s without testing .called, but %s registers requests whose Deferred was created "
+                           "already fired (%s): AlreadyCalledError skips the rest of the clean-up" % (rg, tr0.label(), where(st0)))
     ctx.count("registry_x_clean_loss_path", n)
     ctx.floor("registry x clean-loss-path instances", n, 60)
